@@ -238,6 +238,23 @@ def run(ctx):
             ctx.fail_input('budget', 'fit returns the initial matrix (no feasible iterate was kept)', rec['inp'], observed=fS / t)
           else:
             ctx.fail_input('budget', 'similarity budget exceeded: sum_S d^2 = %.6g t' % (fS / t), rec['inp'], observed=fS / t)
+  else:
+    # the Coq side did not build (e.g. the translated source changed): the same certificate evaluated in binary64
+    for rec in recs:
+      M = rec['M']
+      ctx.count('certificate_np_' + rec['kind'], 1)
+      if rec['kind'] == 'diag':
+        if np.abs(M - np.diag(np.diag(M))).max() > 0 or np.diag(M).min() < 0:
+          ctx.fail_input('diagonal_nonneg', 'diagonal MMC returns a matrix that is not diagonal with non-negative entries', rec['inp'], observed=M.tolist())
+        continue
+      fS = float(np.einsum('ij,jk,ik->', rec['vs'], M, rec['vs']))
+      t = float(np.einsum('ij,jk,ik->', rec['vs'], rec['A0'], rec['vs'])) / 100
+      if np.linalg.eigvalsh((M + M.T) / 2).min() < -1e-9 * np.abs(M).max():
+        ctx.fail_input('psd', 'learned M is not positive semi-definite', rec['inp'], observed=M.tolist())
+      elif np.abs(M - rec['A0']).max() <= 1e-12 * np.abs(M).max():
+        ctx.fail_input('budget', 'fit returns the initial matrix (no feasible iterate was kept)', rec['inp'], observed=fS / t)
+      elif fS > 1.01 * t * (1 + 1e-9):
+        ctx.fail_input('budget', 'similarity budget exceeded: sum_S d^2 = %.6g t' % (fS / t), rec['inp'], observed=fS / t)
 
 
 def replay(payload):
